@@ -228,6 +228,50 @@ brk('c14_list_index_panics', 'C14 C02', OBJ, '''                                
                                     .into(),''', '''                                (Value::List(items), Value::Int(idx)) => {
                                     items[idx as usize].clone().into()
                                 }''')
+# ---- C15
+DURF = 'interpreter/src/duration.rs'
+brk('c15_remainder_dropped', 'C15', FUN, '''        if !rest.is_empty() {
+            return Err(ExecutionError::function_error(
+                "duration",
+                format!("unexpected trailing input '{rest}'"),
+            ));
+        }
+        Ok(duration)''', '''        let _ = rest;
+        Ok(duration)''')
+brk('c15_nom_double_again', 'C15', DURF, '''    map_res(
+        recognize(pair(digit1, opt(pair(char('.'), digit1)))),
+        str::parse::<f64>,
+    )(i)''', '''    nom::number::complete::double(i)''')
+brk('c15_sign_lost', 'C15', DURF, '''    let mut u = nanos.unsigned_abs();''', '''    let mut u = nanos as u128;''')
+brk('c15_duration_add_panics', 'C15 C02', OBJ, '''            (Value::Duration(l), Value::Duration(r)) => l
+                .checked_add(&r)
+                .ok_or(ExecutionError::IntegerOverflow("add", l.into(), r.into()))
+                .map(Value::Duration),''', '''            (Value::Duration(l), Value::Duration(r)) => Value::Duration(l + r).into(),''')
+brk('c15_minutes_are_ms', 'C15', DURF, '''        map(char('m'), |_| Unit::Minute),''', '''        map(char('m'), |_| Unit::Millisecond),''')
+brk('c15_m_before_ms', 'C15', DURF, '''        map(tag("ms"), |_| Unit::Millisecond),
+        map(tag("us"), |_| Unit::Microsecond),
+        map(tag("ns"), |_| Unit::Nanosecond),
+        map(char('h'), |_| Unit::Hour),
+        map(char('m'), |_| Unit::Minute),''', '''        map(char('m'), |_| Unit::Minute),
+        map(tag("ms"), |_| Unit::Millisecond),
+        map(tag("us"), |_| Unit::Microsecond),
+        map(tag("ns"), |_| Unit::Nanosecond),
+        map(char('h'), |_| Unit::Hour),''')
+brk('c15_term_saturates', 'C15', DURF, '''    if nanos.is_nan() || nanos >= i64::MAX as f64 || nanos < i64::MIN as f64 {
+        return None;
+    }''', '''    if nanos.is_nan() {
+        return None;
+    }''')
+# ---- C16
+brk('c16_month_one_based', 'C16', FUN, '''        Ok((this.month0() as i32).into())''', '''        Ok((this.month() as i32).into())''')
+brk('c16_hours_in_utc', 'C16', FUN, '''        Ok((this.hour() as i32).into())''', '''        Ok((this.to_utc().hour() as i32).into())''')
+brk('c16_weekday_from_monday', 'C16', FUN, '''        Ok((this.weekday().num_days_from_sunday() as i32).into())''', '''        Ok((this.weekday().num_days_from_monday() as i32).into())''')
+brk('c16_compare_local_fields', 'C16', OBJ, '''            (Value::Timestamp(a), Value::Timestamp(b)) => Some(a.cmp(b)),''', '''            (Value::Timestamp(a), Value::Timestamp(b)) => Some(a.naive_local().cmp(&b.naive_local())),''')
+brk('c16_timestamp_sub_panics', 'C16 C15', OBJ, '''            (Value::Timestamp(l), Value::Duration(r)) => l
+                .checked_sub_signed(r)
+                .ok_or(ExecutionError::IntegerOverflow("sub", l.into(), r.into()))
+                .map(Value::Timestamp),''', '''            (Value::Timestamp(l), Value::Duration(r)) => Value::Timestamp(l - r).into(),''')
+brk('c16_day_of_year_one_based', 'C16', FUN, '''        Ok(this.signed_duration_since(year).num_days().into())''', '''        Ok((this.signed_duration_since(year).num_days() + 1).into())''')
 # ---- C19
 brk('c19_skip_loop_step', 'C19', REF, '''                comp.loop_step._references(variables, functions);
 ''', '')
